@@ -141,6 +141,7 @@ type FnVC struct {
 	paramConsts map[string]bool
 	curLoopState *loopState
 	refHeaps map[string]bool
+	ghostSeq map[string]bool // ghost variables of kind "seq" (SMT arrays)
 	ancestors map[*ssa.BasicBlock]map[*ssa.BasicBlock]bool
 	pkg      *types.Package
 }
